@@ -177,6 +177,11 @@ func (r *Report) Finish(writeEvidence bool) int {
 	}
 	exit := 0
 	replayDir := filepath.Join(verifDir(), "replay")
+	if old, _ := filepath.Glob(filepath.Join(replayDir, r.Property+"-*.json")); len(old) > 0 {
+		for _, f := range old {
+			os.Remove(f)
+		}
+	}
 	if len(viol) > 0 || len(r.Fatal) > 0 {
 		os.MkdirAll(replayDir, 0o755)
 	}
@@ -240,22 +245,22 @@ func (r *Report) writeEvidence(nOb, nDis, nConf int, known, viol []Obligation) {
 		distinct[o.Key] = true
 	}
 	cov := map[string]interface{}{
-		"explanation": "Static analysis of /repo's current working tree (go/packages type-check from source + go/ssa + call graph). Each rule yields one obligation per construct it applies to; an obligation is discharged by the rule's structural argument, listed in the frozen confirmed-table with a reason, or violated. Decides structural necessary conditions of the property, not the behaviour itself. Rules: " + strings.Join(ruleTexts, " || "),
-		"obligations":        nOb,
-		"discharged":         nDis,
-		"confirmed_table":    nConf,
-		"known_findings":     len(known),
-		"violations":         len(viol),
-		"evaluations":        nOb,
+		"explanation":         "Static analysis of /repo's current working tree (go/packages type-check from source + go/ssa + call graph). Each rule yields one obligation per construct it applies to; an obligation is discharged by the rule's structural argument, listed in the frozen confirmed-table with a reason, or violated. Decides structural necessary conditions of the property, not the behaviour itself. Rules: " + strings.Join(ruleTexts, " || "),
+		"obligations":         nOb,
+		"discharged":          nDis,
+		"confirmed_table":     nConf,
+		"known_findings":      len(known),
+		"violations":          len(viol),
+		"evaluations":         nOb,
 		"distinct_nontrivial": len(distinct),
-		"rule":               "one obligation per (rule, function, construct) found by the analysis in the current tree; distinct = distinct keys",
-		"samples":            samples,
-		"rules":              r.Rules,
-		"all_obligations":    r.Obls,
-		"observations":       r.Notes,
-		"fatal":              r.Fatal,
-		"checker_cmd":        fmt.Sprintf("%s/bin/acraverify check %s --tier %s", verifDir(), r.Property, r.Tier),
-		"exhaustive":         true,
+		"rule":                "one obligation per (rule, function, construct) found by the analysis in the current tree; distinct = distinct keys",
+		"samples":             samples,
+		"rules":               r.Rules,
+		"all_obligations":     r.Obls,
+		"observations":        r.Notes,
+		"fatal":               r.Fatal,
+		"checker_cmd":         fmt.Sprintf("%s/bin/acraverify check %s --tier %s", verifDir(), r.Property, r.Tier),
+		"exhaustive":          true,
 	}
 	if r.prog != nil {
 		cov["packages_loaded"] = len(r.prog.All)
